@@ -6,7 +6,7 @@
    exceptional exit satisfies E.  `unchanged h h'` = every cell of every block, the set of live blocks, their
    sizes and all data-member registers are exactly as before (strong guarantee incl. "nothing leaked"). *)
 From Coq Require Import List Arith Lia Bool.
-From C04 Require Import Effects ObjMgr ArrayData Ctor KeyValue Tree Relocator Replace PlanWf MultiMap SetCount HashGrow.
+From C04 Require Import Effects ObjMgr ArrayData Ctor KeyValue Tree Relocator Replace PlanWf MultiMap SetCount HashGrow Shifter.
 Import ListNotations.
 
 (* ObjectManager::RelocateExec (both overloads of pvRelocateExec, ObjectManager.h:508-535), for every element
@@ -440,7 +440,8 @@ Print Assumptions array_setcount_grow_strong.
 
 (* The documented strength of the Array / SegmentedArray operations (Array.h:181-186) as a table: `documented` gives
    Strong / Nothrow for everything except Insert/Remove at a position (Basic); `proved o` is the strong-guarantee (or cannot-throw)
-   statement of the modelled operation o in the `run op s = (Exn, s') -> ...` form; Insert/Remove at a position are not modelled. *)
+   statement of the operation o in the `run op s = (Exn, s') -> ...` form; for Insert/Remove at a position (Basic) it is the
+   validity of the array after the exception (array_insert_basic / array_remove_basic below).  No entry is trivial. *)
 Theorem array_strength_table : forall o, proved o.
 Proof. exact array_strength_table_proved. Qed.
 Print Assumptions array_strength_table.
@@ -465,3 +466,48 @@ Theorem pv_add_grow_params_leak_refuted :
              alive (hp s') 2 = true /\ alive (hp grow_demo) 2 = false.
 Proof. exact pv_add_grow_keep_params_leaks. Qed.
 Print Assumptions pv_add_grow_params_leak_refuted.
+
+(* ArrayShifter::InsertNogrow(array, index, count, item) (ArrayUtility.h:196-224): documented BASIC.  For every category, index,
+   count and schedule: never an undefined step; after an exception the array is valid -- its count lies between the old and the
+   new one, every slot below the count holds a constructed (possibly moved-from) object, every slot above is raw. *)
+Theorem array_insert_basic :
+  forall c arg index count s,
+    arr_basic arg (hp s) -> 0 < count -> index <= regs (hp s) rCount -> regs (hp s) rCount + count <= regs (hp s) rCap ->
+    wp (array_insert_nogrow c arg index count) s
+       (fun _ s' => arr_basic arg (hp s') /\ regs (hp s') rCount = regs (hp s) rCount + count)
+       (fun s' => arr_basic arg (hp s') /\ regs (hp s) rCount <= regs (hp s') rCount <= regs (hp s) rCount + count).
+Proof. exact array_insert_basic_spec. Qed.
+Print Assumptions array_insert_basic.
+
+(* ArrayShifter::Remove(array, index, count) (ArrayUtility.h:276-286): documented BASIC *)
+Theorem array_remove_basic :
+  forall c arg index count s,
+    arr_basic arg (hp s) -> 0 < count -> index + count <= regs (hp s) rCount ->
+    wp (array_remove_at c arg index count) s
+       (fun _ s' => arr_basic arg (hp s') /\ regs (hp s') rCount = regs (hp s) rCount - count)
+       (fun s' => arr_basic arg (hp s') /\ regs (hp s') rCount = regs (hp s) rCount).
+Proof. exact array_remove_basic_spec. Qed.
+Print Assumptions array_remove_basic.
+
+(* HashSet::pvAddGrow for a set that already has buckets (shared BucketParams): a failing table allocation falls back to the
+   old table (overloadIfCannotGrow), a failing add to the new table destroys the new table only; strong for every schedule *)
+Theorem pv_add_grow_more_strong :
+  forall (nb newCap : nat) (add_old : M unit) (add_new : nat -> M unit) (Pn : heap -> Prop),
+    (forall s, Pn (hp s) -> wp add_old s (fun _ _ => True) (fun s' => same_res (hp s) (hp s'))) ->
+    (forall tb s, Pn (hp s) -> alive (hp s) tb = true -> wp (add_new tb) s (fun _ _ => True) (fun s' => same_res (hp s) (hp s'))) ->
+    (forall h h', heq h h' -> Pn h -> Pn h') -> (forall h n, wf h -> Pn h -> Pn (halloc h n)) ->
+    forall s, wf (hp s) -> Pn (hp s) ->
+      wp (pv_add_grow true nb newCap add_old add_new) s (fun _ _ => True) (fun s' => same_res (hp s) (hp s')).
+Proof. exact pv_add_grow_more_spec. Qed.
+Print Assumptions pv_add_grow_more_strong.
+
+(* pvRelocateItems (HashSet.h:1257-1308), the lazy migration after a growth, wrapped in try/catch "no throw!": for every list
+   of migration steps that are individually all-or-nothing, every observable `obs` preserved by a completed step and insensitive
+   to what a failed step leaves (same_res), the call never throws and obs is the same afterwards -- wherever it was interrupted *)
+Theorem relocate_items_swallow :
+  forall (X : Type) (obs : heap -> X) (Inv : heap -> Prop),
+    (forall h h', same_res h h' -> obs h' = obs h) -> (forall h h', same_res h h' -> Inv h -> Inv h') ->
+    forall steps s, Forall (step_ok X obs Inv) steps -> Inv (hp s) ->
+      wp (relocate_items steps) s (fun _ s' => obs (hp s') = obs (hp s) /\ Inv (hp s')) (fun _ => False).
+Proof. exact relocate_items_spec. Qed.
+Print Assumptions relocate_items_swallow.
